@@ -169,6 +169,9 @@ func (e *Engine) validateSettings(smc tmstate.StateMachineConfig) error {
 
 	if e.genesis == nil {
 		err = errors.Join(err, errors.New("no genesis set (use tmengine.WithGenesis)"))
+	} else if e.genesis.InitialHeight == 0 {
+		// The finalization at InitialHeight-1 holds the genesis state.
+		err = errors.Join(err, errors.New("genesis initial height must not be zero (check tmengine.WithGenesis)"))
 	}
 
 	if e.hashScheme == nil {
@@ -320,6 +323,12 @@ func (e *Engine) maybeInitializeChain(
 				"failed to build validator set from init genesis response: %w", err,
 			)
 		}
+	}
+
+	if len(valSet.Validators) == 0 {
+		return tmconsensus.Genesis{}, errors.New(
+			"no initial validators: the genesis validator set (see tmengine.WithGenesis) is empty and the init chain response did not provide validators",
+		)
 	}
 
 	// Get the block hash from the genesis with possibly updated validators.
